@@ -17,7 +17,7 @@ fn pick<'a>(rng: &mut StdRng, xs: &[&'a str]) -> &'a str {
 pub fn program(rng: &mut StdRng, family: usize) -> (&'static str, String) {
     let i = |rng: &mut StdRng| pick(rng, &["-1", "0", "1", "2", "3", "4", "5", "32767", "-32768"]).to_string();
     let d = |rng: &mut StdRng| pick(rng, &["0", "1", "-1", "2", "7"]).to_string();
-    match family % 26 {
+    match family % 27 {
         0 => ("ref-null", format!(
             "PROGRAM P\nVAR x : INT := 5; y : INT; r : REF_TO INT; k : INT := {}; END_VAR\nIF k > 0 THEN r := REF(x); END_IF;\nr^ := r^ + INT#1;\ny := r^;\nIF k > 2 THEN r := NULL; END_IF;\ny := y + r^;\nEND_PROGRAM\n", i(rng))),
         1 => ("ref-struct", format!(
@@ -72,6 +72,8 @@ pub fn program(rng: &mut StdRng, family: usize) -> (&'static str, String) {
             "FUNCTION_BLOCK Cell\nVAR_INPUT x : INT; END_VAR\nVAR_OUTPUT y : INT; END_VAR\ny := y + x;\nEND_FUNCTION_BLOCK\nPROGRAM P\nVAR cells : ARRAY[0..2] OF Cell; k : INT := {}; s : INT; END_VAR\ncells[k](x := INT#1);\ns := cells[0].y + cells[1].y + cells[2].y;\nk := k + INT#1;\nEND_PROGRAM\n", d(rng))),
         24 => ("en-eno", format!(
             "FUNCTION Work : INT\nVAR_INPUT EN : BOOL; a : INT; END_VAR\nVAR_OUTPUT ENO : BOOL; END_VAR\nWork := INT#100 / a;\nEND_FUNCTION\nFUNCTION Outer : INT\nVAR_INPUT n : INT; END_VAR\nVAR v : INT; ok : BOOL; END_VAR\nv := n + INT#1;\nOuter := Work(EN := n > INT#1, a := n, ENO => ok);\nv := v + Outer;\nIF NOT ok THEN v := v + n; END_IF;\nOuter := v;\nEND_FUNCTION\nFUNCTION_BLOCK Holder\nVAR_TEMP tmp : INT; END_VAR\nVAR keep : INT; ok : BOOL; END_VAR\nMETHOD PUBLIC Run : INT\nVAR_INPUT n : INT; END_VAR\nVAR loc : INT; END_VAR\nloc := n;\nRun := Work(EN := n < INT#0, a := n, ENO => ok);\nloc := loc + Run;\nRun := loc;\nEND_METHOD\ntmp := Work(EN := keep > INT#2, a := keep, ENO => ok);\nkeep := keep + tmp + INT#1;\nEND_FUNCTION_BLOCK\nPROGRAM P\nVAR y1 : INT; y2 : INT; e1 : INT; e2 : INT; k : INT := {}; h : Holder; selfcheck : BOOL := TRUE; END_VAR\ny1 := Outer(n := k);\nh();\ny2 := h.Run(n := k);\nIF k > INT#1 THEN e1 := k + INT#1 + INT#100 / k; ELSE e1 := k + INT#1 + k; END_IF;\nIF k < INT#0 THEN e2 := k + INT#100 / k; ELSE e2 := k; END_IF;\nselfcheck := (y1 = e1) AND (y2 = e2);\nk := k - INT#1;\nEND_PROGRAM\n", i(rng))),
+        25 => ("fb-en-gate", format!(
+            "FUNCTION_BLOCK Worker\nVAR_INPUT EN : BOOL; x : DINT; END_VAR\nVAR_OUTPUT ENO : BOOL; y : DINT; END_VAR\nVAR calls : DINT; END_VAR\ncalls := calls + DINT#1;\ny := x * DINT#2;\nEND_FUNCTION_BLOCK\nFUNCTION_BLOCK Station\nVAR w : Worker; END_VAR\nVAR_TEMP tt : DINT; END_VAR\nMETHOD PUBLIC Scale : DINT\nVAR_INPUT gate : BOOL; v : DINT; END_VAR\nVAR tmp : DINT; ok : BOOL; END_VAR\ntmp := v + DINT#1;\nw(EN := gate, x := tmp, ENO => ok);\nIF ok THEN Scale := w.y; ELSE Scale := tmp; END_IF;\nEND_METHOD\ntt := DINT#5;\nw(EN := FALSE, x := tt);\ntt := tt + DINT#1;\nEND_FUNCTION_BLOCK\nFUNCTION Via : DINT\nVAR_INPUT g : BOOL; v : DINT; END_VAR\nVAR_IN_OUT wk : Worker; END_VAR\nVAR loc : DINT; END_VAR\nloc := v;\nwk(EN := g, x := v);\nVia := loc + wk.y;\nEND_FUNCTION\nPROGRAM P\nVAR k : DINT := {}; w : Worker; w2 : Worker; st : Station; ok : BOOL; doubled : DINT; total : DINT; s : DINT; e : DINT; v : DINT; selfcheck : BOOL := TRUE; END_VAR\nVAR_TEMP t : DINT; END_VAR\nt := DINT#21;\nw(EN := k > DINT#1, x := t, ENO => ok, y => doubled);\ntotal := doubled + t;\ns := st.Scale(gate := k > DINT#2, v := k);\nst();\nIF k > DINT#2 THEN e := (k + DINT#1) * DINT#2; ELSE e := k + DINT#1; END_IF;\nv := Via(g := k > DINT#3, v := k, wk := w2);\nselfcheck := (s = e) AND (t = DINT#21) AND (ok = (k > DINT#1)) AND (v = k + w2.y);\nk := k - DINT#1;\nEND_PROGRAM\n", pick(rng, &["0", "1", "2", "3", "4", "5", "6"]))),
         _ => ("deep-expression", {
             let n = [10usize, 200, 2000][rng.gen_range(0..3)];
             let mut e = String::from("x");
